@@ -18,7 +18,17 @@ type Engine struct {
 // Evaluate executes all of the expressions and returns the final result.
 //
 // Evaluate expects that there is at least one document provided.
-func (e *Engine) Evaluate(documents []*gedcom.Document) (interface{}, error) {
+func (e *Engine) Evaluate(documents []*gedcom.Document) (result interface{}, err error) {
+	// Queries are arbitrary programs that are mostly evaluated with
+	// reflection. An ill-typed query must be reported as an error rather than
+	// taking the whole process down.
+	defer func() {
+		if r := recover(); r != nil {
+			result = nil
+			err = fmt.Errorf("cannot evaluate query: %v", r)
+		}
+	}()
+
 	// Before we begin we will setup the Document variables. Each document, in
 	// order will be given Document1, Document2, ...
 	for i, document := range documents {
